@@ -3,7 +3,7 @@ import re
 
 from hypothesis import strategies as st
 
-from .. import corpus, meta, rb, run
+from .. import corpus, meta, rb, run, shipped
 from ..engine import Prop, Verdict
 
 # hand-written fragments with the shapes the property names (conditionals with narrowing, blocks on array literals,
@@ -107,6 +107,9 @@ class Check(Prop):
             rb.fragment(prefix="zq", errors=0.0, max_stmts=4).map(lambda p: rb.render_lines(p["tree"])),
             rb.fragment(prefix="zq", errors=0.05, max_stmts=6).map(lambda p: rb.render_lines(p["tree"])),
             st.sampled_from(FIXED_FRAGMENTS),
+            # accepted and rejected calls of shipped configured methods: what a call does to the shared method entries must not
+            # reach the host's calls of the same methods
+            shipped.strategy(self.repo, prefix="zq", max_calls=3).map(lambda t: t.rstrip("\n").split("\n")),
             st.lists(st.sampled_from(FIXED_FRAGMENTS), min_size=2, max_size=3).map(lambda xs: [l for i, x in enumerate(xs) for l in
                                                                                            [re.sub(r"zq(\d+)", lambda m: "zq%s_%d" % (m.group(1), i), y) for y in x]]),
         )
